@@ -1,0 +1,83 @@
+//! Verification hooks (compiled only with `--cfg rajanmaghera_riscv_analysis_verif`).
+//!
+//! Thread-local work counters for the fixed-point passes and an optional
+//! sweep limit that turns a non-terminating analysis into a deterministic
+//! panic with a fixed message.
+
+use std::cell::Cell;
+
+#[derive(Clone, Copy, Debug, PartialEq, Eq)]
+pub enum Pass {
+    Available,
+    Liveness,
+    DeadCode,
+}
+
+#[derive(Clone, Copy, Debug, Default, PartialEq, Eq)]
+pub struct Counters {
+    pub sweeps_available: u64,
+    pub sweeps_liveness: u64,
+    pub sweeps_dead_code: u64,
+    pub node_visits: u64,
+}
+
+pub const SWEEP_LIMIT_MESSAGE: &str = "VERIF_SWEEP_LIMIT";
+
+thread_local! {
+    static COUNTERS: Cell<Counters> = const { Cell::new(Counters {
+        sweeps_available: 0,
+        sweeps_liveness: 0,
+        sweeps_dead_code: 0,
+        node_visits: 0,
+    }) };
+    static LIMIT: Cell<Option<u64>> = const { Cell::new(None) };
+    static SINCE_RESET: Cell<u64> = const { Cell::new(0) };
+}
+
+/// Called at the top of every sweep of a fixed-point loop.
+pub fn sweep(pass: Pass) {
+    COUNTERS.with(|c| {
+        let mut v = c.get();
+        match pass {
+            Pass::Available => v.sweeps_available += 1,
+            Pass::Liveness => v.sweeps_liveness += 1,
+            Pass::DeadCode => v.sweeps_dead_code += 1,
+        }
+        c.set(v);
+    });
+    let n = SINCE_RESET.with(|s| {
+        s.set(s.get() + 1);
+        s.get()
+    });
+    if let Some(limit) = LIMIT.with(Cell::get) {
+        assert!(n <= limit, "{SWEEP_LIMIT_MESSAGE}");
+    }
+}
+
+/// Called once per node visited inside a sweep.
+pub fn visit() {
+    COUNTERS.with(|c| {
+        let mut v = c.get();
+        v.node_visits += 1;
+        c.set(v);
+    });
+}
+
+/// Reset all counters (and the sweep count the limit applies to).
+pub fn reset() {
+    COUNTERS.with(|c| c.set(Counters::default()));
+    SINCE_RESET.with(|s| s.set(0));
+}
+
+/// Read the counters and reset them.
+#[must_use]
+pub fn take() -> Counters {
+    let v = COUNTERS.with(Cell::get);
+    reset();
+    v
+}
+
+/// Set (or clear) the maximum number of sweeps allowed between two resets.
+pub fn set_sweep_limit(limit: Option<u64>) {
+    LIMIT.with(|l| l.set(limit));
+}
